@@ -1329,7 +1329,11 @@ func (ex *Exec) callbackCall(st *State, cb *Val, e *ast.CallExpr) *Val {
 	}
 	var idx *Val
 	if cs := ex.fc.Calls[cn]; cs != nil && cs.At != nil {
-		idx = ex.specVal(st, cs.At, nil)
+		var extra map[string]*Val
+		if n := len(ex.closureIdx); n > 0 {
+			extra = map[string]*Val{"$idx": tv(ex.closureIdx[n-1], types.Typ[types.Int])} // index of the enclosing callee iteration
+		}
+		idx = ex.specVal(st, cs.At, extra)
 	} else if idxPos >= 0 {
 		idx = args[idxPos]
 	} else if ip.At != nil {
@@ -1464,6 +1468,28 @@ func (ex *Exec) callWithClosure(st *State, cn int, cfi *FuncInfo, cfc *FuncContr
 		cs = &CallSpec{}
 	}
 	lit := closure.Fn
+	// nested protocols: the enclosing function has a protocol of its own and the literal calls its callback parameter;
+	// `seen`/`stopped` in iterinv/iterstop/use mean the CALLEE's iteration, `oseen`/`ostopped` the enclosing function's ghosts
+	nested := ex.fc != nil && ex.fc.Iter != nil && litCallsParam(ex, lit, ex.fc.Iter.Param)
+	withOuter := func(s *State, m map[string]*Val) map[string]*Val {
+		if ex.fc == nil || ex.fc.Iter == nil {
+			return m
+		}
+		if v, ok := s.ghost["seen"]; ok {
+			m["oseen"] = v
+		}
+		if v, ok := s.ghost["stopped"]; ok {
+			m["ostopped"] = v
+		}
+		return m
+	}
+	havocOuter := func(s *State) {
+		if !nested {
+			return
+		}
+		s.ghost["seen"] = tv(ex.fresh("oseen", s.ghost["seen"].T.S), nil)
+		s.ghost["stopped"] = tv(ex.fresh("ostopped", SBool), nil)
+	}
 	setSort := arraySort(SInt, SBool)
 	emptySet := ex.constArray(tFalse, SBool)
 	// modified captured variables
@@ -1475,7 +1501,7 @@ func (ex *Exec) callWithClosure(st *State, cn int, cfi *FuncInfo, cfc *FuncContr
 	}
 	// 1. invariant holds initially with seen = {}
 	for i, c := range cs.IterInv {
-		g := ex.specBool(st, c.E, map[string]*Val{"seen": tv(emptySet, nil)})
+		g := ex.specBool(st, c.E, withOuter(st, map[string]*Val{"seen": tv(emptySet, nil)}))
 		ex.oblige(st, "iter", fmt.Sprintf("iter.call%d.init.%s", cn, clauseName(c, i)), g, where+": iterinv holds before the search: "+c.Src)
 	}
 	// 2. one callback step from an arbitrary state satisfying the invariant
@@ -1487,6 +1513,7 @@ func (ex *Exec) callWithClosure(st *State, cn int, cfi *FuncInfo, cfc *FuncContr
 	if closureWritesHeap(ex, lit) {
 		ex.havocHeap(body, lit)
 	}
+	havocOuter(body)
 	seenB := ex.fresh("seen", setSort)
 	iB := ex.fresh("idx", SInt)
 	ienv := env.with(map[string]*Val{ip.IdxVar: tv(iB, types.Typ[types.Int])})
@@ -1501,7 +1528,7 @@ func (ex *Exec) callWithClosure(st *State, cn int, cfi *FuncInfo, cfc *FuncContr
 		ex.assume(body, &Term{Op: "forall", BVars: []*Term{j}, S: SBool, Args: []*Term{tImp(tSelect(seenB, j), tAnd(ex.w.trSpec(ip.Dom, jenv).T, ex.w.trSpec(ip.Match, jenv).T))}})
 	}
 	for _, c := range cs.IterInv {
-		ex.assume(body, ex.specBool(body, c.E, map[string]*Val{"seen": tv(seenB, nil)}))
+		ex.assume(body, ex.specBool(body, c.E, withOuter(body, map[string]*Val{"seen": tv(seenB, nil)})))
 	}
 	// bind closure params
 	pi := 0
@@ -1519,7 +1546,7 @@ func (ex *Exec) callWithClosure(st *State, cn int, cfi *FuncInfo, cfc *FuncContr
 	}
 	seenAfter := ex.define("seen", tStore(seenB, iB, tTrue))
 	for _, u := range cs.Uses {
-		ex.applyLemma(body, u, map[string]*Val{"seen": tv(seenB, nil), ip.IdxVar: tv(iB, nil), "$idx": tv(iB, nil)})
+		ex.applyLemma(body, u, withOuter(body, map[string]*Val{"seen": tv(seenB, nil), ip.IdxVar: tv(iB, nil), "$idx": tv(iB, nil)}))
 	}
 	ctx := &closureCtx{}
 	ctx.onReturn = func(rs *State, vals []*Val, at ast.Node) {
@@ -1531,13 +1558,13 @@ func (ex *Exec) callWithClosure(st *State, cn int, cfi *FuncInfo, cfc *FuncContr
 		cont := rs.clone()
 		ex.assume(cont, r)
 		for i, c := range cs.IterInv {
-			g := ex.specBool(cont, c.E, map[string]*Val{"seen": tv(seenAfter, nil)})
+			g := ex.specBool(cont, c.E, withOuter(cont, map[string]*Val{"seen": tv(seenAfter, nil)}))
 			ex.oblige(cont, "iter", fmt.Sprintf("iter.call%d.step%d.%s", cn, ex.retN, clauseName(c, i)), g, w2+": iterinv re-established when the callback returns true: "+c.Src)
 		}
 		stop := rs.clone()
 		ex.assume(stop, tNot(r))
 		for i, c := range cs.IterStop {
-			g := ex.specBool(stop, c.E, map[string]*Val{"seen": tv(seenAfter, nil)})
+			g := ex.specBool(stop, c.E, withOuter(stop, map[string]*Val{"seen": tv(seenAfter, nil)}))
 			ex.oblige(stop, "iter", fmt.Sprintf("iter.call%d.stop%d.%s", cn, ex.retN, clauseName(c, i)), g, w2+": iterstop established when the callback returns false: "+c.Src)
 		}
 		ex.retN++
@@ -1545,7 +1572,9 @@ func (ex *Exec) callWithClosure(st *State, cn int, cfi *FuncInfo, cfc *FuncContr
 	closureStack = append(closureStack, ctx)
 	savedRet := ex.retN
 	ex.retN = 0
+	ex.closureIdx = append(ex.closureIdx, iB)
 	fl := ex.execBlock(body, lit.Body.List)
+	ex.closureIdx = ex.closureIdx[:len(ex.closureIdx)-1]
 	ex.retN = savedRet
 	closureStack = closureStack[:len(closureStack)-1]
 	if fl.normal != nil {
@@ -1560,6 +1589,7 @@ func (ex *Exec) callWithClosure(st *State, cn int, cfi *FuncInfo, cfc *FuncContr
 		// heap stores inside the closure: every heap field the function may write is unknown afterwards
 		ex.havocHeap(st, lit)
 	}
+	havocOuter(st)
 	seenF := ex.fresh("seen", setSort)
 	stoppedF := ex.fresh("stopped", SBool)
 	bvCounter++
@@ -1568,11 +1598,11 @@ func (ex *Exec) callWithClosure(st *State, cn int, cfi *FuncInfo, cfc *FuncContr
 	dm := tAnd(ex.w.trSpec(ip.Dom, jenv).T, ex.w.trSpec(ip.Match, jenv).T)
 	var inv []*Term
 	for _, c := range cs.IterInv {
-		inv = append(inv, ex.specBool(st, c.E, map[string]*Val{"seen": tv(seenF, nil)}))
+		inv = append(inv, ex.specBool(st, c.E, withOuter(st, map[string]*Val{"seen": tv(seenF, nil)})))
 	}
 	var stopc []*Term
 	for _, c := range cs.IterStop {
-		stopc = append(stopc, ex.specBool(st, c.E, map[string]*Val{"seen": tv(seenF, nil)}))
+		stopc = append(stopc, ex.specBool(st, c.E, withOuter(st, map[string]*Val{"seen": tv(seenF, nil)})))
 	}
 	full := &Term{Op: "forall", BVars: []*Term{j}, S: SBool, Args: []*Term{tEq(tSelect(seenF, j), dm)}}
 	ex.assume(st, tImp(tNot(stoppedF), tAnd(append(inv, full)...)))
@@ -1580,7 +1610,7 @@ func (ex *Exec) callWithClosure(st *State, cn int, cfi *FuncInfo, cfc *FuncContr
 	st.ghost["$seen"] = tv(seenF, nil)
 	st.ghost["$stopped"] = tv(stoppedF, nil)
 	for _, u := range cs.After {
-		ex.applyLemma(st, u, map[string]*Val{"seen": tv(seenF, nil)})
+		ex.applyLemma(st, u, withOuter(st, map[string]*Val{"seen": tv(seenF, nil)}))
 	}
 	// explicit ensures of callee (e.g. result == !stopped)
 	rnames := resultNames(cfi.Sig)
@@ -1753,4 +1783,20 @@ func lexLess(a, b []*Term) *Term {
 		return head
 	}
 	return tOr(head, tAnd(tEq(a[0], b[0]), lexLess(a[1:], b[1:])))
+}
+
+// litCallsParam: does the function literal call the named function-typed parameter of the enclosing function?
+func litCallsParam(ex *Exec, lit *ast.FuncLit, param string) bool {
+	found := false
+	ast.Inspect(lit.Body, func(n ast.Node) bool {
+		if ce, ok := n.(*ast.CallExpr); ok {
+			if id, ok := ce.Fun.(*ast.Ident); ok && id.Name == param {
+				if _, isVar := ex.info.Uses[id].(*types.Var); isVar {
+					found = true
+				}
+			}
+		}
+		return true
+	})
+	return found
 }
